@@ -523,9 +523,155 @@ def r5(ctx):
     ctx.floor("C11.R5", 7)
 
 
+def r6(ctx):
+    """the document-level operations the live actor actually calls (NamespaceStates::start_connect / accept_request / finish /
+    abort_connect) evaluated on a nested map model - documents -> peers -> slot - together with the per-peer functions they
+    reach: the slot addressed is the one of (this document, this peer); an unknown document answers false / NotFound / None and
+    nothing is created for it; the slots of the other peers of the document and of the same peer in another document are left
+    exactly as they were (a session with one peer never frees, takes or resets the slot of another pair)"""
+    from . import feval as E, coll
+    f = ctx.facts
+    NS = "engine::state::NamespaceStates"
+    NST = "engine::state::NamespaceState"
+    PSP = "engine::state::PeerState"
+    OA = E.variant(f, "engine::state::Origin", "Accept")
+    OC = E.variant(f, "engine::state::Origin", "Connect", E.Tok("reason0"))
+    ops = ("start_connect", "accept_request", "finish", "abort_connect")
+    for nm in ops + ("entry",):
+        ctx.touch(f.body(NS + "::" + nm))
+
+    def slot(it, v):
+        v = it.deref_val(v) if v is not None and v[0] == "ref" else v
+        if v is None or v[0] != "adt":
+            return E.describe(v, f)
+        st = E.describe(E.field(f, v, PSP, "state"), f)
+        st = "Idle" if st.startswith("Idle") else ("Running{Accept}" if "Accept" in st else ("Running{Connect}" if "Connect" in st else st))
+        return "%s/resync=%s" % (st, E.describe(E.field(f, v, PSP, "resync_requested"), f))
+
+    def snapshot(it):
+        out = {}
+        m = E.field(f, it.heap["self"], NS, "0")
+        for kv in (m[2] if coll.is_seq(m) else []):
+            ns = it.tokname(kv[1][0])
+            st = it.deref_val(kv[1][1])
+            nodes = E.field(f, st, NST, "nodes")
+            for kv2 in (nodes[2] if coll.is_seq(nodes) else []):
+                out[(ns, it.tokname(kv2[1][0]))] = slot(it, kv2[1][1])
+            out[(ns,)] = "doc"
+        return out
+
+    n = 0
+    for op in ops:
+        for doc in ("absent", "present"):
+            for pst in ("absent", "Idle", "Running{Connect}", "Running{Accept}"):
+                if doc == "absent" and pst != "absent":
+                    continue
+                C = coll.Collections(f)
+
+                def oracle(kind, name, payload, site):
+                    if kind in ("eq", "cmp"):
+                        a, b2 = str(name), str(payload)
+                        if (a.startswith("ns") and b2.startswith("ns")) or (a.startswith("peer") and b2.startswith("peer")) or (a.startswith(("peer", "me")) and b2.startswith(("peer", "me"))):
+                            return (a == b2) if kind == "eq" else ((a > b2) - (a < b2))
+                        return None
+                    if kind == "call" and name == "or_default":
+                        t, args, it = payload
+                        full = (t["f"].get("full") or "") + (t["f"].get("res") or "")
+                        if "PeerState" in full:
+                            dflt = _peer(f, E, "Idle", resync=E.Int(0))
+                            return C.handle_map("or_insert", t, [args[0], dflt], it, full)
+                    if kind == "call" and name == "now":
+                        return E.Tok("now")
+                    return C.handle(kind, name, payload, site)
+                heap = {}
+
+                def cellp(nm, st, og, rr):
+                    heap[nm] = _peer(f, E, st, og, resync=E.Int(rr))
+                    return E.href(nm)
+                peers1 = [("tuple", [E.Tok("peerB"), cellp("c-ns1-peerB", "Running", "Accept", 1)])]
+                if pst != "absent":
+                    st, og = ("Idle", None) if pst == "Idle" else ("Running", "Connect" if "Connect" in pst else "Accept")
+                    peers1 = [("tuple", [E.Tok("peerA"), cellp("c-ns1-peerA", st, og, 1)])] + peers1
+                peers2 = [("tuple", [E.Tok("peerA"), cellp("c-ns2-peerA", "Running", "Connect", 1)])]
+                heap["d-ns2"] = E.struct(f, NST, nodes=coll.seq("map", peers2), may_emit_ready=E.Int(0))
+                docs = [("tuple", [E.Tok("ns2"), E.href("d-ns2")])]
+                if doc == "present":
+                    heap["d-ns1"] = E.struct(f, NST, nodes=coll.seq("map", peers1), may_emit_ready=E.Int(0))
+                    docs = [("tuple", [E.Tok("ns1"), E.href("d-ns1")])] + docs
+                heap["self"] = E.struct(f, NS, **{"0": coll.seq("map", docs)})
+                heap["ns"] = E.Tok("ns1")
+                heap["me"] = E.Tok("me0")
+                heap["origin"] = OA if pst == "Running{Accept}" else OC
+                args = {"start_connect": [E.href("self"), E.href("ns"), E.Tok("peerA"), E.variant(f, "engine::state::SyncReason", "DirectJoin")],
+                        "accept_request": [E.href("self"), E.href("me"), E.href("ns"), E.Tok("peerA")],
+                        "finish": [E.href("self"), E.href("ns"), E.Tok("peerA"), E.href("origin"), E.Tok("result0")],
+                        "abort_connect": [E.href("self"), E.href("ns"), E.Tok("peerA")]}[op]
+                key = "%s[document=%s,peer=%s]" % (op, doc, pst)
+                b = f.body(NS + "::" + op)
+                try:
+                    ret, itp = E.run_it(f, b.path, args, heap, oracle)
+                    got = snapshot(itp)
+                    rets = E.describe(ret, f)
+                except E.Unsupported as e:
+                    ctx.bad("C11.R6", b.path, key, "UNSUPPORTED-FORM: %s" % e, b.sp)
+                    n += 1
+                    continue
+                # ---- what the property says
+                by = {("ns2",): "doc", ("ns2", "peerA"): "Running{Connect}/resync=1"}
+                if doc == "present":
+                    by[("ns1",)] = "doc"
+                    by[("ns1", "peerB")] = "Running{Accept}/resync=1"
+                problems = []
+                for k, v in by.items():
+                    if got.get(k) != v:
+                        problems.append("bystander %s: %s, was %s" % ("/".join(k), got.get(k), v))
+                mine = got.get(("ns1", "peerA"))
+                if doc == "absent":
+                    want_ret = {"start_connect": "0", "accept_request": "Reject(NotFound)", "finish": "None", "abort_connect": "0"}[op]
+                    if rets != want_ret:
+                        problems.append("returns %s, spec %s" % (rets, want_ret))
+                    if ("ns1",) in got or mine is not None:
+                        problems.append("an entry was created for a document that is not being synced")
+                else:
+                    if op == "start_connect":
+                        free = pst in ("absent", "Idle")
+                        want_ret = "1" if free else "0"
+                        want_state = "Running{Connect}" if free else pst
+                    elif op == "accept_request":
+                        free = pst in ("absent", "Idle")
+                        if pst == "Running{Connect}":
+                            want_ret, want_state = None, None     # the tie-break row: decided by C11.R1
+                        else:
+                            want_ret = "Allow" if free else "Reject(AlreadySyncing)"
+                            want_state = "Running{Accept}"
+                    elif op == "finish":
+                        owner = pst.startswith("Running")       # the reported origin is the owner's
+                        want_ret = "Some((start0,1))" if owner else "None"
+                        want_state = "Idle"
+                    else:
+                        want_ret = "1" if pst == "Running{Connect}" else "0"
+                        want_state = "Idle" if pst in ("Running{Connect}", "Idle", "absent") else pst
+                    if want_ret is not None and rets != want_ret:
+                        problems.append("returns %s, spec %s" % (rets, want_ret))
+                    if want_state is not None:
+                        have = (mine or "no-entry").split("/")[0]
+                        if have == "no-entry" and want_state == "Idle":
+                            have = "Idle"
+                        if have != want_state:
+                            problems.append("slot of (ns1, peerA) afterwards %s, spec %s" % (mine, want_state))
+                    if set(got) - set(by) - {("ns1", "peerA")}:
+                        problems.append("unexpected entries %s" % sorted(set(got) - set(by) - {("ns1", "peerA")}))
+                n += 1
+                ctx.check(not problems, "C11.R6", b.path, key,
+                          "returns %s; slots afterwards %s; spec: only the slot of (this document, this peer) may change, by the per-peer transition; an unknown document answers false / NotFound / None and gets no entry" % (rets, {"/".join(k): v for k, v in got.items() if len(k) == 2}),
+                          b.sp, bad_detail="; ".join(problems) + " — slots afterwards %s" % {"/".join(k): v for k, v in got.items() if len(k) == 2})
+    ctx.floor("C11.R6", 20)
+
+
 def run(ctx):
     ctx.run_rule("C11.R1", r1)
     ctx.run_rule("C11.R2", r2)
     ctx.run_rule("C11.R3", r3)
     ctx.run_rule("C11.R4", r4)
     ctx.run_rule("C11.R5", r5)
+    ctx.run_rule("C11.R6", r6)
